@@ -92,13 +92,34 @@ class Cursor:
         return len(self.data) - self.pos
 
 
+_PERIOD = 251 * 255
+_BASE: List[bytes] = []
+_TABLES: Dict[int, bytes] = {}
+
+
 def pattern(seed: int, size: int, start: int = 0) -> bytes:
     """Self-locating content without zero bytes: a block placed at the wrong
-    offset, lost, duplicated or zero-filled changes the result.  Period is
-    251*255, coprime to every generated block size"""
+    offset, lost, duplicated or zero-filled changes the result.
+    byte(i) = 1 + (i*167 + (i//251)*31 + seed*13) % 255; the period 251*255
+    is coprime to every generated block size"""
 
-    return bytes(1 + ((i * 167 + (i // 251) * 31 + seed * 13) % 255)
-                 for i in range(start, start + size))
+    if size <= 0:
+        return b''
+
+    if not _BASE:
+        _BASE.append(bytes((i * 167 + (i // 251) * 31) % 255
+                           for i in range(_PERIOD)))
+
+    table = _TABLES.get(seed % 255)
+
+    if table is None:
+        table = bytes(1 + (v + seed * 13) % 255 for v in range(255)) + b'\0'
+        _TABLES[seed % 255] = table
+
+    base = _BASE[0]
+    first = start % _PERIOD
+    reps = (first + size) // _PERIOD + 1
+    return (base * reps)[first:first + size].translate(table)
 
 
 class MFile:
